@@ -102,6 +102,18 @@ def symmetric_relevance(ctx, clause):
                 t = re.sub(pat, rep, t)
             texts.append(t)
         ok = texts[0] == texts[1] and not ifs[0].orelse
+        if not ok and not ifs[0].orelse and not ifs[1].orelse:
+            # the same comparison on canonical arms: local names by order of appearance, the direction flag as a role
+            # (`inverse=False` in the subject arm, `inverse=True` in the object arm), pure S<->O otherwise
+            from .twin import normal_form
+            forms = []
+            for s_ in ifs:
+                wrap = ast.FunctionDef(name="arm", args=ast.arguments(posonlyargs=[], args=[ast.arg("self"), ast.arg("a_triple")], kwonlyargs=[],
+                                                                      kw_defaults=[], defaults=[]), body=[s_], decorator_list=[], lineno=s_.lineno,
+                                       col_offset=0)
+                ast.fix_missing_locations(wrap)
+                forms.append(normal_form(f, SO + [(r"inverse=(True|False)", "inverse=FLAG")], node=wrap))
+            ok = forms[0] == forms[1]
         guard = norm(ifs[0].test)
         ok = ok and guard.startswith("self._is_relevant_instance(")
         obs.append(Ob(clause, "R-TWIN", "R-TWIN|subject-object-arms|%s" % f.short, f.loc(), ok,
@@ -155,6 +167,11 @@ DIRECT_ONLY_CLASSES = {
     "DirectFeaturesStrategy": "profiling strategy instantiated only when inverse_paths is off",
     "DirectShexingStrategy": "shexing strategy instantiated only when inverse_paths is off",
 }
+# and the counterpart: code that exists only when inverse_paths is on (constructed in the other arm of the same choices)
+INVERSE_ONLY_CLASSES = {
+    "IncludeReverseFeaturesStrategy": "profiling strategy instantiated only when inverse_paths is on",
+    "DirectAndInverseShexingStrategy": "shexing strategy instantiated only when inverse_paths is on",
+}
 DIRECT_ONLY_SUFFIX = "_no_inverse"      # method slots bound when inverse_paths is off (ShexSerializer, ShapeExampleFeaturesDict)
 
 
@@ -177,24 +194,33 @@ def explicit_direction(ctx, clause):
     seen = set()
     # the table of direct-only classes is what the code says: each is constructed only in the arm taken when the
     # inverse option is off
-    for cname, why in DIRECT_ONLY_CLASSES.items():
-        sites = [cs for cs in r.callsites if cs.kind == "ctor" and cs.recv_types.name == cname]
-        good = bool(sites)
-        for cs in sites:
-            pm = parent_map(cs.func.node)
-            cur, arm_ok = cs.node, False
-            while cur in pm:
-                par = pm[cur]
-                if isinstance(par, ast.IfExp) and any(isinstance(x, ast.Name) and "inverse" in x.id for x in ast.walk(par.test)):
-                    neg = isinstance(par.test, ast.UnaryOp) and isinstance(par.test.op, ast.Not)
-                    arm_ok = (cur is par.body and neg) or (cur is par.orelse and not neg)
-                    break
-                cur = par
-            good = good and arm_ok
-        obs.append(Ob(clause, "R-CONST", "R-CONST|direct-only-class|%s" % cname, sites[0].func.loc(sites[0].node) if sites else "shexer:0", good,
-                      "%s is constructed only when the inverse option is off (%d site(s)): its callers may rely on the direct default" % (
-                          cname, len(sites)) if good else
-                      "%s is listed as direct-only but is constructed outside the `not inverse` arm" % cname))
+    from ..canon import _is_negated
+    for table, want_on, label in ((DIRECT_ONLY_CLASSES, False, "direct-only"), (INVERSE_ONLY_CLASSES, True, "inverse-only")):
+        for cname, why in table.items():
+            sites = [cs for cs in r.callsites if cs.kind == "ctor" and cs.recv_types.name == cname]
+            good = bool(sites)
+            for cs in sites:
+                pm = parent_map(cs.func.node)
+                cur, arm_ok = cs.node, False
+                while cur in pm:
+                    par = pm[cur]
+                    if isinstance(par, (ast.IfExp, ast.If)) and any(isinstance(x, ast.Name) and "inverse" in x.id for x in ast.walk(par.test)):
+                        neg = _is_negated(par.test)
+                        if isinstance(par, ast.IfExp):
+                            in_true, in_false = cur is par.body, cur is par.orelse
+                        else:
+                            in_true, in_false = any(cur is s_ for s_ in par.body), any(cur is s_ for s_ in par.orelse)
+                        if in_true or in_false:
+                            on = in_true != neg            # the arm taken when the inverse option is on
+                            arm_ok = on == want_on
+                            break
+                    cur = par
+                good = good and arm_ok
+            obs.append(Ob(clause, "R-CONST", "R-CONST|%s-class|%s" % (label, cname), sites[0].func.loc(sites[0].node) if sites else "shexer:0", good,
+                          "%s is constructed only when the inverse option is %s (%d site(s))%s" % (
+                              cname, "on" if want_on else "off", len(sites), "" if want_on else ": its callers may rely on the direct default") if good else
+                          "%s is listed as %s but is constructed outside the arm taken when the inverse option is %s" % (
+                              cname, label, "on" if want_on else "off")))
     for cs in r.callsites:
         if not ctx.reachable(cs.func):
             continue
